@@ -18,6 +18,11 @@ pub enum Op {
     RawSyn { addr: u8 },
     /// a raw peer completes the handshake it started (sends the ACK for the SYN-ACK it was sent)
     RawAck { addr: u8 },
+    /// a raw peer sends a Disconnect request (graceful close of its connection, if any)
+    RawDisconnect { addr: u8 },
+    /// a raw peer goes through a whole life cycle and comes back from the same address: connect, disconnect
+    /// gracefully, (optionally) the application drops the lingering entry, connect again
+    Reincarnate { addr: u8, drop_closed: bool },
     ClientDisconnect { k: u8, now: bool },
     ServerDisconnect { k: u8, now: bool },
     ServerDrop { k: u8 },
@@ -58,8 +63,10 @@ impl Check for C17 {
         let op = prop_oneof![
             10 => prop_oneof![3 => Just(0u32), 6 => 1_000u32..50_000, 3 => 50_000u32..500_000, 1 => 500_000u32..3_000_000, 1 => 3_000_000u32..25_000_000].prop_map(|dt_us| Op::Tick { dt_us }),
             8 => prop_oneof![Just(0u32), 0u32..20_000, 20_000u32..300_000].prop_map(|latency_us| Op::StartClient { latency_us }),
-            3 => (0u8..24).prop_map(|addr| Op::RawSyn { addr }),
-            2 => (0u8..24).prop_map(|addr| Op::RawAck { addr }),
+            3 => prop_oneof![2 => 0u8..3, 1 => 0u8..24].prop_map(|addr| Op::RawSyn { addr }),
+            2 => prop_oneof![2 => 0u8..3, 1 => 0u8..24].prop_map(|addr| Op::RawAck { addr }),
+            1 => prop_oneof![2 => 0u8..3, 1 => 0u8..24].prop_map(|addr| Op::RawDisconnect { addr }),
+            1 => (0u8..3, any::<bool>()).prop_map(|(addr, drop_closed)| Op::Reincarnate { addr, drop_closed }),
             2 => (any::<u8>(), any::<bool>()).prop_map(|(k, now)| Op::ClientDisconnect { k, now }),
             2 => (any::<u8>(), any::<bool>()).prop_map(|(k, now)| Op::ServerDisconnect { k, now }),
             1 => any::<u8>().prop_map(|k| Op::ServerDrop { k }),
@@ -79,7 +86,7 @@ impl Check for C17 {
     }
 
     fn rule(&self) -> String {
-        "case = World with a Server whose max_active_connections is 1..6 and max_total_connections 1..8 (either may bind first), enable_handshake_errors on or off, and a generated script: real Clients started at arbitrary moments on links with latency 0..300 ms (many SYNs before any ACK: overlapping handshakes), raw peers that send a valid SYN and never answer or answer later, client / server disconnect() and disconnect_now(), Server::drop, clients silenced until the server times them out, ticks of 0..25 s; optionally every established connection is then dropped, every client silenced and, after 25 s (the 20 s linger, the 22 s handshake budget of abandoned attempts), a fresh client is offered. Oracle after every server step: addresses between Connect and their terminal event (or drop) that the server still reports as active (not closing) number <= max_active_connections; addresses the server still tracks (Server::client() returns them) and whose connection has not ended number <= max_total_connections; every refusal of a compatible request is HandshakeError(ServerFull) and the real client reports Error(ServerFull); the fresh client offered after everything ended connects within 5 s. Non-trivial = more clients were offered than a limit admits and at least two handshakes overlapped. Distinct = distinct serialised case.".into()
+        "case = World with a Server whose max_active_connections is 1..6 and max_total_connections 1..8 (either may bind first), enable_handshake_errors on or off, and a generated script: real Clients started at arbitrary moments on links with latency 0..300 ms (many SYNs before any ACK: overlapping handshakes), raw peers (a few addresses that come back again and again) that send a valid SYN and never answer, answer later, or disconnect gracefully and reconnect, client / server disconnect() and disconnect_now(), Server::drop, clients silenced until the server times them out, ticks of 0..25 s; optionally every established connection is then dropped, every client silenced and, after 25 s (the 20 s linger, the 22 s handshake budget of abandoned attempts), a fresh client is offered. Oracle after every server step: addresses between Connect and their terminal event (or drop) that the server still reports as active (not closing) number <= max_active_connections; addresses the server still tracks (Server::client() returns them) and whose connection has not ended number <= max_total_connections; a connection that was reported and neither ended nor dropped is still returned by Server::client(); every refusal of a compatible request is HandshakeError(ServerFull) and the real client reports Error(ServerFull); the fresh client offered after everything ended connects within 5 s. Non-trivial = more clients were offered than a limit admits and at least two handshakes overlapped. Distinct = distinct serialised case.".into()
     }
 
     fn assumptions(&self) -> Vec<String> {
@@ -171,6 +178,13 @@ impl Check for C17 {
                     }
                     classes.push("known_overlapping_overshoot");
                 }
+                // a connection that was reported and has neither ended nor been dropped must still be known to the server
+                if let Some(a) = m.connected.iter().find(|a| !w.server_has_client(a)) {
+                    return CaseResult::fail(
+                        "oracle:c17:connection_forgotten_without_terminal_event",
+                        format!("at t={} us Server::client({a}) returns nothing although Connect({a}) was reported and no terminal event or drop followed: the connection is no longer counted against the limits", w.now_us),
+                    );
+                }
                 let tracked = all_addrs.iter().filter(|a| w.server_has_client(a) && !m.ended.contains(*a)).count();
                 if tracked > c.max_total as usize {
                     return CaseResult::fail(
@@ -226,6 +240,43 @@ impl Check for C17 {
                         let ack = Frame::HandshakeAckFrame(HandshakeAckFrame { nonce_ack: *nonce }).write();
                         w.send_raw(a, w.server_addr, &ack, 0);
                     }
+                }
+                Op::Reincarnate { addr, drop_closed } => {
+                    let a = raw_addr(*addr as u32);
+                    if !all_addrs.contains(&a) {
+                        all_addrs.push(a);
+                    }
+                    for round in 0..2 {
+                        let nonce = 5000 + *addr as u32 + round;
+                        let syn = Frame::HandshakeSynFrame(HandshakeSynFrame { version: 3, nonce, max_receive_rate: 1_000_000, max_packet_size: 1000, max_receive_alloc: 1_000_000 }).write();
+                        w.send_raw(a, w.server_addr, &syn, 0);
+                        offered += 1;
+                        w.advance(1000);
+                        step_all!();
+                        if let Some(n) = synack_to.get(&a) {
+                            let ack = Frame::HandshakeAckFrame(HandshakeAckFrame { nonce_ack: *n }).write();
+                            w.send_raw(a, w.server_addr, &ack, 0);
+                        }
+                        w.advance(1000);
+                        step_all!();
+                        if round == 0 {
+                            w.send_raw(a, w.server_addr, &Frame::DisconnectFrame(DisconnectFrame {}).write(), 0);
+                            w.advance(1000);
+                            step_all!();
+                            if *drop_closed && w.server_has_client(&a) {
+                                if let Some(server) = w.server.as_mut() {
+                                    server.drop(&a);
+                                }
+                                m.connected.remove(&a);
+                                m.ended.insert(a);
+                            }
+                        }
+                    }
+                    classes.push("raw_peer_reincarnated");
+                }
+                Op::RawDisconnect { addr } => {
+                    let a = raw_addr(*addr as u32);
+                    w.send_raw(a, w.server_addr, &Frame::DisconnectFrame(DisconnectFrame {}).write(), 0);
                 }
                 Op::ClientDisconnect { k, now } => {
                     if !real.is_empty() {
